@@ -45,7 +45,8 @@ def model_check(ctx: Ctx, wd, max_steps: int, max_ticks: int, fix: bool, name: s
         "Emit": 'Finished => PrintT("@@J@@" \\o ToJson([script |-> script, hist |-> hist]))'}, extends="TLC, Json")
     cfg = render_cfg(constants={"MaxSteps": max_steps, "MaxTicks": max_ticks, "FixCancelRefuses": fix},
                      invariants=INVS + (["Emit"] if emit else []))
-    r = run_tlc(wd, "MC_StreamLife", cfg, timeout=1500, cfg_name=f"mc_{'fix' if fix else 'found'}_{max_steps}_{max_ticks}.cfg")
+    r = run_tlc(wd, "MC_StreamLife", cfg, timeout=1500, cfg_name=f"mc_{'fix' if fix else 'found'}_{max_steps}_{max_ticks}.cfg",
+                workers=4)          # the default (auto = 16 workers) is several times slower for these models here
     ctx.add_tlc(name, r)
     return r
 
